@@ -20,8 +20,40 @@ reg("C09",
                  "single_nested_graph_node + input_endpoint_for_sources); a divergence between the mirror and nested_<G> itself is not detected"],
     )
 
+reg("C09",
+    name="C09_delayed", src="harness/C09_delayed.cpp",
+    anchor_files=["src/hgraph/runtime/nested_graph_node.cpp", "src/hgraph/runtime/try_except_node.cpp", "include/hgraph/runtime/nested_graph_node.h",
+                  "src/hgraph/runtime/graph.cpp", "include/hgraph/runtime/node_scheduler.h", "src/hgraph/runtime/node.cpp",
+                  "include/hgraph/types/subgraph_wiring.h", "src/hgraph/types/graph_wiring.cpp",
+                  "include/hgraph/lib/std/operators/impl/higher_order_impl.h"],
+    quick=dict(defs=dict(NX=2, NT=2, DMAX=3, WMAX=5, DEPTH=2, PMAX=2, WITH_TE=1), symx=dict(shards=16, **{"max-wall": 900, "shard-depth": 5})),
+    thorough=dict(defs=dict(NX=3, NT=3, DMAX=3, WMAX=8, DEPTH=3, PMAX=3, WITH_TE=1), symx=dict(shards=16, **{"max-wall": 3000, "shard-depth": 8})),
+    reach=["end", "start_wakeup_woke_idle_parent", "start_wakeup_woke_idle_parent_deepest_mode", "start_wakeup_woke_idle_parent_try_except",
+           "start_wakeup_at_min_td", "start_wakeup_on_or_after_end_of_window", "later_chain_wakeup_after_start_wakeup",
+           "outer_first_tick_before_start_wakeup", "outer_first_tick_exactly_at_start_wakeup", "outer_first_tick_after_start_wakeup",
+           "outer_first_tick_in_start_cycle", "start_cycle_source_then_delayed_source", "parent_busy_child_idle_in_start_cycle",
+           "middle_graph_busy_innermost_idle_in_start_cycle", "second_start_request_earlier_than_first", "second_start_request_later_than_first",
+           "delayed_consumer_timer_before_input_valid", "delayed_consumer_input_then_timer"],
+    bounds="sub-graphs whose earliest internal wake-up is requested from a START HOOK (scheduler.schedule(delta), delta symbolic in [1,DMAX] us, 1 = MIN_TD) by a "
+           "node WITHOUT schedule_on_start, followed by a chain of NT-1 re-scheduling deltas in [1,DMAX]; 5 enumerated definitions: 0 delayed source only (no "
+           "input, parent idle); 1 delayed source merged with a boundary input (NX emissions, first offset symbolic in [0,DMAX] us so the outer input first ticks "
+           "in the start cycle / before / exactly at / after the start-requested wake-up, gaps in [1,DMAX], values in [-1e6,1e6]); 2 start-cycle source "
+           "(schedule_on_start, runs once) next to the delayed source in the same child; 3 the delayed node itself consumes the boundary input (active, "
+           "validity-checked); 4 two-level definition merge(Once, D) with D = map(delayed) a sub-graph call inside it (middle graph busy at start, innermost "
+           "idle); for the no-input definitions 0, 2, 4 three variants: plain / an unrelated root-level ticker (period symbolic in [1,PMAX]) / a second, tagged "
+           "start request (symbolic delta, earlier or later than the first); every definition run inlined, nested at depth 1..DEPTH (hk_c09.h mirror of "
+           "nested_<G> over the real single_nested_graph_node) and wrapped by the real wire_try_except -> try_except_node, each mode built and run on its own "
+           "on the same script in one path; start symbolic in [0,1000] us after MIN_ST; window symbolic in [1,WMAX] us (so the start-requested wake-up falls "
+           "inside, on or after the end of the run)",
+    outside="start hooks that un_schedule or re-tag; wall-clock alarms (C17); start hooks of nodes inside map_/switch_/reduce/mesh children (C10-C12); try_except "
+            "children that throw (C15); try_except nested inside a nested graph; ticker variant for the definitions with a boundary input; more than two start "
+            "requests; depth beyond DEPTH; everything listed as outside for C09_nesting",
+    assumptions=["hk/hk_c09.h nested_call mirrors nested_<G> (see C09_nesting); the try_except mode goes through the repository's own wire_try_except with a "
+                 "hand-made WiredFn (hk_ho.h FnW), so only the operator front door (argument normalisation) is not executed"],
+    )
+
 META = dict(
-    level="bounded symbolic model checking of nested-graph execution (nested_graph_node.cpp, nested_bindings.h, graph.cpp nested scheduling push/pull, "
+    level="bounded symbolic model checking of nested-graph execution (nested_graph_node.cpp, try_except_node.cpp start path, nested_bindings.h, graph.cpp nested scheduling push/pull and start-time hand-over, "
           "graph_wiring.cpp finish_subgraph) as a relational property: the same definition inlined vs nested at depth 1..DEPTH on the same symbolic script",
     note="known finding (definition 6): a consumer with an empty validity gate on a boundary input gets one extra evaluation at start when nested "
          "(schedule_sampled_input_consumers) - listed in known_findings.jsonl; bounds in evidence coverage.harnesses[*].bounds",
